@@ -26,13 +26,14 @@
 (* kwnames / tp_call dict / bound method / cpdef / partial) is not part of  *)
 (* the state: binding must not depend on it, the harness renders every case *)
 (* through all of them.                                                      *)
-EXTENDS Integers, Sequences, FiniteSets, TLC, Json
+EXTENDS Integers, Sequences, FiniteSets, TLC, Json, Randomization
 
 CONSTANTS MaxPO, MaxPK, MaxKO,  \* parameters of each kind
           FixPO,                \* <= MaxPO: only signatures with exactly that many positional-only parameters (partitioning)
           MaxPos,               \* positional values in a call, also capped at (#positional parameters + Extra)
           Extra,
           MaxKw,                \* keywords in a call
+          NSim,                 \* simulation only: number of randomly drawn signatures (SimSpec)
           KindMode,             \* "all": every kind at every position; "pat": uniform and rotating kind patterns only
           Dump
 
@@ -119,7 +120,7 @@ IsOpt(s, i) == HasDef(s, i)
 \* order of the C array `values`: positional parameters, then required keyword-only, then optional keyword-only
 CyOrd(s) == [i \in 1..NPos(s) |-> i] \o SelectSeq(KoIdx(s), LAMBDA i : IsReq(s, i)) \o SelectSeq(KoIdx(s), LAMBDA i : IsOpt(s, i))
 \* `__pyx_pyargnames`: the non-positional-only parameters in that order; ParseKeywords works on `values + npo`
-ArgNames(s) == SubSeq(CyOrd(s), s.npo + 1, NPar(s))
+ArgNames(s) == LET co == CyOrd(s) IN [a \in 1..(NPar(s) - s.npo) |-> ParName(s, co[s.npo + a])]
 NReqKo(s) == Cardinality({i \in 1..Len(s.ko) : ~s.ko[i]})
 MinPos(s) == NPos(s) - s.ndef
 NReqPO(s) == Min(s.npo, MinPos(s))
@@ -129,56 +130,55 @@ KwGet(kws, nm) == KwVal(CHOOSE j \in 1..Len(kws) : kws[j].n = nm)
 AllKw(kws) == [j \in 1..Len(kws) |-> <<kws[j].n, kws[j].k, KwVal(j)>>]
 
 \* st = [vals (indexed by C slot), kw2, err]
-RECURSIVE PKTuple(_, _, _, _, _)
-PKTuple(s, kws, j, fka, st) ==    \* __Pyx_ParseKeywordsTuple; fka = num_pos_args (offset of first_kw_arg)
+RECURSIVE PKTuple(_, _, _, _, _, _)
+PKTuple(s, kws, j, fka, st, an) ==    \* __Pyx_ParseKeywordsTuple; fka = num_pos_args (offset of first_kw_arg)
   IF j > Len(kws) \/ st.err # "" THEN st
   ELSE LET key == kws[j]
-           an == ArgNames(s)
            \* pointer comparison can only succeed for interned key objects
-           ptr == IF key.k = "lit" THEN {a \in (fka + 1)..Len(an) : ParName(s, an[a]) = key.n} ELSE {}
+           ptr == IF key.k = "lit" THEN {a \in (fka + 1)..Len(an) : an[a] = key.n} ELSE {}
            \* __Pyx_MatchKeywordArg (_str for exact str, _nostr for subclasses: same outcome by content)
-           hit == {a \in (fka + 1)..Len(an) : ParName(s, an[a]) = key.n}
-           dup == {a \in 1..fka : ParName(s, an[a]) = key.n}
-           put(a) == PKTuple(s, kws, j + 1, fka, [st EXCEPT !.vals[s.npo + a] = KwVal(j)])
+           hit == {a \in (fka + 1)..Len(an) : an[a] = key.n}
+           dup == {a \in 1..fka : an[a] = key.n}
+           put(a) == PKTuple(s, kws, j + 1, fka, [st EXCEPT !.vals[s.npo + a] = KwVal(j)], an)
        IN IF ptr # {} THEN put(CHOOSE a \in ptr : \A b \in ptr : a <= b)
           ELSE IF key.k = "ns" THEN [st EXCEPT !.err = "nonstr"]
           ELSE IF hit # {} THEN put(CHOOSE a \in hit : \A b \in hit : a <= b)
           ELSE IF dup # {} THEN [st EXCEPT !.err = "multiple"]
-          ELSE IF s.ss THEN PKTuple(s, kws, j + 1, fka, [st EXCEPT !.kw2 = Append(@, <<key.n, key.k, KwVal(j)>>)])
+          ELSE IF s.ss THEN PKTuple(s, kws, j + 1, fka, [st EXCEPT !.kw2 = Append(@, <<key.n, key.k, KwVal(j)>>)], an)
           ELSE [st EXCEPT !.err = "unexpected"]
 
 RECURSIVE DictExtract(_, _, _, _, _, _)
 DictExtract(s, kws, a, left, vals, an) ==   \* loop of __Pyx_ParseKeywordDict: returns <<vals, #extracted>>
   IF a > Len(an) \/ left = 0 THEN <<vals, left>>
-  ELSE IF KwHas(kws, ParName(s, an[a]))
-       THEN DictExtract(s, kws, a + 1, left - 1, [vals EXCEPT ![s.npo + a] = KwGet(kws, ParName(s, an[a]))], an)
+  ELSE IF KwHas(kws, an[a])
+       THEN DictExtract(s, kws, a + 1, left - 1, [vals EXCEPT ![s.npo + a] = KwGet(kws, an[a])], an)
        ELSE DictExtract(s, kws, a + 1, left, vals, an)
 
-PKDict(s, kws, fka, st) ==        \* __Pyx_ParseKeywordDict (no **kw)
+PKDict(s, kws, fka, st, an) ==       \* __Pyx_ParseKeywordDict (no **kw)
   IF \E j \in 1..Len(kws) : kws[j].k = "ns" THEN [st EXCEPT !.err = "nonstr"]   \* PyArg_ValidateKeywordArguments
-  ELSE LET an == ArgNames(s)
-           r == DictExtract(s, kws, fka + 1, Len(kws), st.vals, an)
+  ELSE LET r == DictExtract(s, kws, fka + 1, Len(kws), st.vals, an)
        IN IF r[2] > 0 THEN [st EXCEPT !.err = "unexpected-or-multiple"]          \* __Pyx_RejectUnknownKeyword
           ELSE [st EXCEPT !.vals = r[1]]
 
-PKDictToDict(s, kws, fka, st) ==  \* __Pyx_ParseKeywordDictToDict
+PKDictToDict(s, kws, fka, st, an) == \* __Pyx_ParseKeywordDictToDict
   IF \E j \in 1..Len(kws) : kws[j].k = "ns" THEN [st EXCEPT !.err = "nonstr"]
-  ELSE LET an == ArgNames(s)
-           popped == {a \in (fka + 1)..Len(an) : KwHas(kws, ParName(s, an[a]))}
-           vals2 == [c \in 1..NPar(s) |-> IF c > s.npo /\ (c - s.npo) \in popped THEN KwGet(kws, ParName(s, an[c - s.npo])) ELSE st.vals[c]]
-           rest == SelectSeq(AllKw(kws), LAMBDA e : ~\E a \in popped : ParName(s, an[a]) = e[1])
-       IN IF rest # <<>> /\ \E a \in 1..fka : KwHas(kws, ParName(s, an[a]))   \* __Pyx_ValidateDuplicatePosArgs
+  ELSE LET popped == {a \in (fka + 1)..Len(an) : KwHas(kws, an[a])}
+           vals2 == [c \in 1..NPar(s) |-> IF c > s.npo /\ (c - s.npo) \in popped THEN KwGet(kws, an[c - s.npo]) ELSE st.vals[c]]
+           rest == SelectSeq(AllKw(kws), LAMBDA e : ~\E a \in popped : an[a] = e[1])
+       IN IF rest # <<>> /\ \E a \in 1..fka : KwHas(kws, an[a])   \* __Pyx_ValidateDuplicatePosArgs
           THEN [st EXCEPT !.err = "multiple"]
           ELSE [st EXCEPT !.vals = vals2, !.kw2 = rest]
 
 ParseKeywords(s, kws, fka, st, path) ==
-  IF path = "tuple" THEN PKTuple(s, kws, 1, fka, st)
-  ELSE IF s.ss THEN PKDictToDict(s, kws, fka, st)
-  ELSE PKDict(s, kws, fka, st)
+  LET an == ArgNames(s) IN
+  IF path = "tuple" THEN PKTuple(s, kws, 1, fka, st, an)
+  ELSE IF s.ss THEN PKDictToDict(s, kws, fka, st, an)
+  ELSE PKDict(s, kws, fka, st, an)
 
 \* result in declaration order
 Finish(s, np, st) ==
-  LET inv(i) == CHOOSE c \in 1..NPar(s) : CyOrd(s)[c] = i IN
+  LET co == CyOrd(s)
+      inv(i) == CHOOSE c \in 1..NPar(s) : co[c] = i IN
   [ok |-> TRUE, cls |-> "bound",
    vals |-> [i \in 1..NPar(s) |-> IF st.vals[inv(i)] = 0 THEN DefVal(i) ELSE st.vals[inv(i)]],
    args |-> [i \in 1..(IF s.star /\ np > NPos(s) THEN np - NPos(s) ELSE 0) |-> PosVal(NPos(s) + i)],   \* __Pyx_ArgsSlice(args, max_positional_args, nargs)
@@ -270,6 +270,22 @@ AddKwNonStr   == /\ Len(kw) < MaxKw /\ ~KwHas(kw, NonStrKey)
 
 Next == AddPositional \/ AddKwParam \/ AddKwPosOnly \/ AddKwUnknown \/ AddKwNonStr
 Spec == Init /\ [][Next]_vars
+
+\* the large family (<= 6 parameters of each kind) is sampled: NSim random signatures, any number of positionals,
+\* a call that leaves no required
+\* parameter empty (or no keyword at all), then random walks that add keywords (TLC -simulate); every visited state is a case and is checked like the others
+\* keywords for the required parameters that np positionals leave empty (so that many sampled calls bind)
+ReqKw(s, n0, k) == LET idx == SelectSeq([i \in 1..NPar(s) |-> i], LAMBDA i : ~HasDef(s, i) /\ i > n0 /\ i > s.npo)
+                   IN [j \in 1..Len(idx) |-> [n |-> ParName(s, idx[j]), k |-> k]]
+\* independent random draws (the 174k signatures of the 6/6/6 family are never enumerated)
+RandSig(i) == LET r == [npo |-> RandomElement(0..MaxPO), npk |-> RandomElement(0..MaxPK), ndef |-> RandomElement(0..(MaxPO + MaxPK)),
+                        star |-> RandomElement(BOOLEAN), ko |-> RandomElement(BoolSeqs(MaxKO)), ss |-> RandomElement(BOOLEAN)]
+              IN [r EXCEPT !.ndef = Min(r.ndef, r.npo + r.npk)]
+SimInit == /\ sig \in {RandSig(i) : i \in 1..NSim}
+           /\ sig.ndef <= NPos(sig)
+           /\ np \in {n \in {0, MinPos(sig) - 1, MinPos(sig), NPos(sig), NPos(sig) + 1} : n >= 0 /\ n <= MaxPos}
+           /\ \E k \in StrKindSet \cup {"none"} : kw = IF k = "none" THEN <<>> ELSE ReqKw(sig, np, k)
+SimSpec == SimInit /\ [][Next]_vars
 
 Ref == Bind(sig, np, kw)
 
